@@ -244,3 +244,29 @@ def ff_is_proprietary(self):
 def bytes_of(items):
     from pyvc.values import mk_bytes
     return mk_bytes(items)
+
+
+# ----------------------------------------------------------------------------- canonical representation
+from pyvc.values import register_canon, SObj as _SObj        # noqa: E402
+
+
+def _rebuild_frame(interp, cls, view):
+    """a Frame of class cls with this (bits, data, error) view, built by the real Frame.__init__"""
+    from pyvc import sym as _sym
+    if _sym.ctx() is None:
+        o = cls.__new__(cls)
+        F.Frame.__init__(o, view["_bits"], view["_data"])
+        o._error = view["_error"]
+        return o
+    o = _SObj(cls, {}, fresh=True)
+    saved = interp.contracts
+    interp.contracts = {k: v for k, v in saved.items() if k != "dali.frame:Frame.__init__"}
+    try:
+        interp.call_repo_function(F.Frame.__init__, (o, view["_bits"], view["_data"]), {}, force_body=True)
+    finally:
+        interp.contracts = saved
+    o.fields["_error"] = view["_error"]
+    return o
+
+
+register_canon(F.Frame, ("_bits", "_data", "_error"), _rebuild_frame)
